@@ -633,6 +633,21 @@ let rec exec (toks : string list) (side : string list) (impl_result : string) : 
           (match M.cmf_sketch the_libm m1 m2 scale pl nl with
            | None -> "model-out-of-fuel" ^ md
            | Some (pa, na) -> "pos=" ^ calls pa ^ " neg=" ^ calls na ^ md)))
+  (* GetSum: the exact variant answers from its statistics; the plain one folds value*count over ForEach in the store's iteration order
+     (ascending for the array-backed and paginated kinds; a hash-map store iterates in no fixed order: not compared) *)
+  | ["ksum"; k] ->
+    let (g, s) = get_sk k in
+    (match s.M.sk_stats with
+     | Some t -> xstr (M.su_get_sum t)
+     | None ->
+       let sparse st = (match st with M.SS _ -> true | _ -> false) in
+       if sparse s.M.sk_pos || sparse s.M.sk_neg then raise Unsupported else begin
+         absorb_vals g side;
+         match M.sk_foreach (mtable_of g side) s with
+         | None -> "panic"
+         | Some (s', l) -> g.sk <- Some s';
+           xstr (List.fold_left (fun acc (v, c) -> M.fadd acc (M.fmul (M.q2f v) (M.q2f c))) (f64_of_hex "0000000000000000") l)
+       end)
   | ["kforeach"; k; n] ->
     let (g, s) = get_sk k in
     absorb_vals g side;
